@@ -108,8 +108,14 @@ def cases(tier, base_seed):
                 # spatial joins of the SHARED frame(s) with a shared right frame
                 menu = menu + ("sjoin_inner", "sjoin_left", "sjoin_inner")
             same = rng.choice(menu) if rng.random() < 0.35 else None
+            # two cases in five: the clients draw their boxes from a pool of two, so that several
+            # clients ask one shared object the SAME question (after it answered another one)
+            pool = [gen.gen_box(rng) for _ in range(2)] if rng.random() < 0.4 else None
+            if pool and same is None and rng.random() < 0.5:
+                same = rng.choice(menu)
             for _ in range(nc):
-                ops.append([{"op": same or rng.choice(menu), "box": gen.gen_box(rng)}
+                ops.append([{"op": same or rng.choice(menu),
+                             "box": list(rng.choice(pool)) if pool else gen.gen_box(rng)}
                             for _ in range(rng.randint(1, 3))])
             if obj == "dask_store":
                 ops = [o[:1] for o in ops[:3]]        # one (expensive) op per client, <= 3 clients
